@@ -10,10 +10,12 @@ var props = []*hx.Prop{
 	{ID: "C01", Run: runC01},
 	{ID: "C02", Run: runC02},
 	{ID: "C03", Run: runC03},
+	{ID: "C06", Run: gnssTime("C06", false)},
 	{ID: "C07", Run: runC07},
 	{ID: "C09", Run: runC09},
 	{ID: "C12", Run: runC12},
 	{ID: "C13", Run: runC13},
+	{ID: "C17", Run: gnssTime("C17", true)},
 }
 
 func TestVsim(t *testing.T) { hx.Main(t, props...) }
